@@ -601,6 +601,52 @@ class SymBoolArray:
 
 
 _installed = {}
+import builtins as _builtins
+
+_MISSING = object()
+
+
+def _is_fp_proxy(x):
+    return type(x).__name__ == "SymFP"
+
+
+class _FloatMeta(type):
+    def __instancecheck__(cls, obj):
+        return isinstance(obj, _builtins.float) or (isinstance(obj, Sym) and not obj.e.is_int()) or _is_fp_proxy(obj)
+
+
+class FloatShim(_builtins.float, metaclass=_FloatMeta):
+    """`float` as seen by the PyXAB modules: the conversion of a value that already is a Python float is the identity, so a
+    proxy (real-valued, or a z3 floating-point term) is handed back unchanged; everything else goes to the builtin"""
+
+    def __new__(cls, x=0.0):
+        if isinstance(x, Sym) or _is_fp_proxy(x):
+            return x
+        return _builtins.float(x)
+
+
+class _IntMeta(type):
+    def __instancecheck__(cls, obj):
+        return isinstance(obj, _builtins.int) or (isinstance(obj, Sym) and obj.e.is_int())
+
+
+class IntShim(_builtins.int, metaclass=_IntMeta):
+    """`int` as seen by the PyXAB modules: truncation towards zero of a real-valued proxy (one fork on the sign)"""
+
+    def __new__(cls, x=0, *a):
+        if isinstance(x, Sym) and not a:
+            if x.e.is_int():
+                return x
+            return x.floor() if x >= 0 else x.ceil()
+        return _builtins.int(x, *a)
+
+
+def install_conversions(mods):
+    """only the `float` / `int` conversions (used by the floating-point lemma runs, which keep the real numpy)"""
+    for name, m in mods.items():
+        for k, v in (("float", FloatShim), ("int", IntShim)):
+            if k not in vars(m):
+                setattr(m, k, v)
 
 
 def install(mods, which=None):
@@ -610,6 +656,10 @@ def install(mods, which=None):
         if which is not None and name not in which:
             continue
         saved = {}
+        for k, v in (("float", FloatShim), ("int", IntShim)):
+            if k not in vars(m) or vars(m)[k] in (FloatShim, IntShim):
+                saved[k] = _MISSING
+                setattr(m, k, v)
         if hasattr(m, "math") and isinstance(m.math, types.ModuleType):
             saved["math"] = m.math
             m.math = ms
@@ -623,7 +673,11 @@ def install(mods, which=None):
 def uninstall():
     for name, (m, saved) in list(_installed.items()):
         for k, v in saved.items():
-            setattr(m, k, v)
+            if v is _MISSING:
+                if k in vars(m):
+                    delattr(m, k)
+            else:
+                setattr(m, k, v)
         del _installed[name]
 
 
